@@ -406,6 +406,15 @@ def run(ctx):
     ctx.rule('R09f', 'the default-database getters return a database constructed by the call (no shared instance)', 2)
     default_db_fresh(ctx, 'R09f', repo)
 
+    # ---- R09g (C10 R10g): state factories hand out a state derived from the one they were given
+    ctx.rule('R09g', 'the state factories of the parsers (get_group_parsing_state, make_child_parsing_state, ...) return a state '
+                     'derived from the parsing state they are given (or fixed at construction), never one remembered from an '
+                     'earlier call: a state memoised on the shared parser object under a key that omits the input string or a '
+                     'flag makes the contents of a later `[...]` argument depend on what was parsed before (C10 R10g)', 2)
+    from .. import core as _core9
+    from . import c10 as _c10
+    _core9.run_proxied(ctx, _c10, 'R09g', ('R10g',))
+
     return 'other', (
         'Effect analysis over every class whose instances outlive a parse (%d classes) and over '
         'module-level containers, default values and database mutator call sites.  Decides the '
